@@ -4,12 +4,13 @@ import Tmcg.Model.Rbc
   Line-protocol handlers for the reliable-broadcast model (C14); kept in a separate file so that
   it can be developed independently of Tmcg/Driver.lean.
 
-  A party state is 31 tokens (no blanks inside a token):
+  A party state is 32 tokens (no blanks inside a token):
     n t j fifo fifo_skip ID s
     [last_IDs] [last_s] [last_deliver_s: a;b;c,…]
     [recover_s: id:s,…] [recover_deliver_s: id:a;b;c,…]
     [tags: id:sender:seq,…]                       -- table; everything below refers to tags by index
     [send] [echo] [ready] [request] [answer] [retrieve] [deliver]     -- peer:tag,…
+    [awaited: tag,…]                              -- r-request sent, no valid r-answer yet
     [mbar: tag:value,…] [dbar: tag:value,…]
     [e_d: tag:digest:count,…] [r_d: …]
     [retrieve_buf: tag:v0;v1;…,…]
@@ -93,7 +94,7 @@ def pDbuf (tags : List Tag) (s : String) : Option (List Msg) := do
 
 def pState : List String → Option (Party × List String)
   | n :: t :: j :: fifo :: fs :: ID :: s :: lids :: ls :: lds :: rs :: rds :: tags ::
-    fsend :: fecho :: fready :: freq :: fans :: fretr :: fdel :: mbar :: dbar :: ed :: rd ::
+    fsend :: fecho :: fready :: freq :: fans :: fretr :: fdel :: aw :: mbar :: dbar :: ed :: rd ::
     rbuf :: dbuf :: ds :: derr :: bmsg :: bmpz :: bid :: rest => do
     let n ← pNat n; let t ← pNat t; let j ← pNat j; let fifo ← pNat fifo; let fs ← pNat fs
     let ID ← pInt ID; let s ← pInt s
@@ -103,6 +104,7 @@ def pState : List String → Option (Party × List String)
     let fsend ← pFilter tags fsend; let fecho ← pFilter tags fecho; let fready ← pFilter tags fready
     let freq ← pFilter tags freq; let fans ← pFilter tags fans; let fretr ← pFilter tags fretr
     let fdel ← pFilter tags fdel
+    let aw ← (← pNatList aw).mapM fun i => tags[i]?
     let mbar ← pTagInt tags mbar; let dbar ← pTagInt tags dbar
     let ed ← pCounts tags ed; let rd ← pCounts tags rd
     let rbuf ← pTagVec tags rbuf; let dbuf ← pDbuf tags dbuf
@@ -111,7 +113,7 @@ def pState : List String → Option (Party × List String)
     some ({ n := n, t := t, j := j, fifo := fifo = 1, fifoSkip := fs, ID := ID, s := s,
             lastIDs := lids, lastS := ls, lastDeliverS := lds, recoverS := rs, recoverDeliverS := rds,
             send := fsend, echo := fecho, ready := fready, request := freq, answer := fans,
-            retrieve := fretr, deliver := fdel, mbar := mbar, dbar := dbar, eD := ed, rD := rd,
+            retrieve := fretr, deliver := fdel, awaited := aw, mbar := mbar, dbar := dbar, eD := ed, rD := rd,
             retrieveBuf := rbuf, deliverBuf := dbuf, deliverS := ds, deliverError := derr.map (· = 1),
             bufMsg := bmsg, bufMpz := bmpz, bufId := bid }, rest)
   | _ => none
@@ -131,7 +133,7 @@ def dedup {α} [DecidableEq α] : List α → List α
 
 def tagTable (p : Party) : List Tag :=
   let all := (p.send ++ p.echo ++ p.ready ++ p.request ++ p.answer ++ p.retrieve ++ p.deliver).map (·.2)
-    ++ p.mbar.map (·.1) ++ p.dbar.map (·.1) ++ p.eD.map (·.1.1) ++ p.rD.map (·.1.1)
+    ++ p.awaited ++ p.mbar.map (·.1) ++ p.dbar.map (·.1) ++ p.eD.map (·.1.1) ++ p.rD.map (·.1.1)
     ++ p.retrieveBuf.map (·.1) ++ p.deliverBuf.map Msg.tag
   dedup (all.mergeSort tagLe)
 
@@ -165,6 +167,7 @@ def showState (p : Party) : String :=
     brk (tags.map fun t => s!"{t.id}:{t.sender}:{t.seq}"),
     showFilter tags p.send, showFilter tags p.echo, showFilter tags p.ready, showFilter tags p.request,
     showFilter tags p.answer, showFilter tags p.retrieve, showFilter tags p.deliver,
+    showList ((p.awaited.map (tIdx tags)).mergeSort fun a b => a ≤ b),
     showTagInt tags p.mbar, showTagInt tags p.dbar, showCounts tags p.eD, showCounts tags p.rD,
     brk (rbuf.map fun (a, v) => s!"{a}:{semi v}"),
     brk (p.deliverBuf.map fun m => s!"{tIdx tags m.tag}:{m.action}:{m.payload}"),
